@@ -103,7 +103,7 @@ func (k SettlementKeeper) CreateNewTenant(ctx sdk.Context, initialAdmin string, 
 	tenantId = k.GetLargestTenantId(ctx) + 1
 	tenant := &types.Tenant{
 		Id:              tenantId,
-		Admins:          []string{initialAdmin},
+		Admins:          []string{canonicalAddress(initialAdmin)},
 		Denom:           denom,
 		PayoutPeriod:    payoutPeriod,
 		PayoutMethod:    payoutMethod,
@@ -132,8 +132,14 @@ func (k SettlementKeeper) CheckAdminPermission(ctx sdk.Context, tenantId uint64,
 		return false
 	}
 
+	accountAddr, err := sdk.AccAddressFromBech32(account)
+	if err != nil {
+		return false
+	}
+
 	for _, admin := range tenant.Admins {
-		if admin == account {
+		adminAddr, err := sdk.AccAddressFromBech32(admin)
+		if err == nil && adminAddr.Equals(accountAddr) {
 			return true
 		}
 	}
@@ -181,4 +187,14 @@ func (k SettlementKeeper) GetAllTenants(ctx sdk.Context) []types.Tenant {
 
 func (k SettlementKeeper) CreateTreasuryAccount(ctx sdk.Context, tenantId uint64) {
 	k.ak.SetAccount(ctx, k.ak.NewAccountWithAddress(ctx, types.GetTenantTreasuryAccount(tenantId)))
+}
+
+// canonicalAddress returns the canonical (lower-case) bech32 spelling of the given address
+func canonicalAddress(addr string) string {
+	acc, err := sdk.AccAddressFromBech32(addr)
+	if err != nil {
+		return addr
+	}
+
+	return acc.String()
 }
